@@ -322,6 +322,12 @@ func init() {
 						if x.a.kind == "write" {
 							need = lkW
 						}
+						// atomic read-modify-write that is not a pure increment (Store/Swap/CompareAndSwap) is a
+						// write as far as other readers are concerned: an `Add` followed by a `Store` is a
+						// check-then-act race under the read lock
+						if x.a.kind == "atomic" && !(strings.Contains(x.a.what, ".Add") || strings.Contains(x.a.what, ".Load")) {
+							need = lkW
+						}
 						cons := x.a.kind + " " + nt.Obj().Name() + "." + x.a.field
 						if st >= need {
 							r.OK(fname(x.fn), cons, x.a.in.Pos(), "%s under the %s", x.a.what, st)
@@ -668,6 +674,48 @@ func init() {
 							}
 							r.Check(empty, fname(fn), "failure return", ret.Pos(), "fails only where the list/ring is observed empty", "a selection can fail although endpoints are installed")
 						}
+					}
+				}
+			}
+		}})
+
+	register(&Rule{ID: "C13.R8", Props: []string{"C13", "C14"}, Min: 8, Needs: NeedMain,
+		Doc: "one membership key: every lookup, insert and delete on a selector's membership map uses the same key function of the endpoint (HashKey()), so that what Add records is what Remove erases and what the duplicate test sees",
+		Run: func(r *R) {
+			for sp, nts := range selectorTypes(r.w) {
+				for _, nt := range nts {
+					for _, fn := range r.w.Funcs(sp) {
+						root := fn
+						for root.Parent() != nil {
+							root = root.Parent()
+						}
+						if root.Signature.Recv() == nil || namedOf(root.Signature.Recv().Type()) != nt {
+							continue
+						}
+						eachInstr(fn, func(in ssa.Instruction) {
+							var key ssa.Value
+							op := ""
+							switch x := in.(type) {
+							case *ssa.Lookup:
+								if strings.HasSuffix(pathOf(x.X), ".mapValues") {
+									key, op = x.Index, "lookup"
+								}
+							case *ssa.MapUpdate:
+								if strings.HasSuffix(pathOf(x.Map), ".mapValues") {
+									key, op = x.Key, "insert"
+								}
+							case *ssa.Call:
+								if builtinName(&x.Call) == "delete" && strings.HasSuffix(pathOf(x.Call.Args[0]), ".mapValues") {
+									key, op = x.Call.Args[1], "delete"
+								}
+							}
+							if key == nil {
+								return
+							}
+							c, isCall := key.(*ssa.Call)
+							okk := isCall && calleeObj(&c.Call) != nil && calleeObj(&c.Call).Name() == "HashKey"
+							r.Check(okk, fname(fn), "mapValues "+op+" key", in.Pos(), "key = HashKey() of the endpoint", "the membership map is accessed with key %s instead of the endpoint's HashKey(): Add, Remove and the duplicate test no longer talk about the same entry (a removed endpoint stays a `member` and cannot be re-added)", pathOf(key))
+						})
 					}
 				}
 			}
